@@ -226,6 +226,20 @@ fn proposal_op(wd: &mut World, r: &mut Reporter, d: &mut Driver) {
     let f = funds(&v, &q);
     choose_amounts(wd, &mut q, &f);
     let present = kinds_present(&v, &q);
+    if q.uses_notes()
+        && v.notes.values().any(|n| {
+            n.account == q.account
+                && n.shield_src.is_some()
+                && !n.spent_mined
+                && !n.spent_pending
+                && !v.note_confirmed(n, &q.pol)
+                && v.target.saturating_sub(n.height) >= q.pol.trusted
+        })
+    {
+        // an output of a wallet shielding transaction that is deep enough by itself but whose
+        // shielded coins are not yet `untrusted` deep
+        r.count("proposals_with_shielding_output_shallow_only_by_its_coins", 1);
+    }
     let t_inv = std::time::Instant::now();
     let out = invoke(wd, &q);
     r.count("ms_invoke", t_inv.elapsed().as_millis() as u64);
@@ -500,7 +514,12 @@ fn run_history(i: u64, cfg: Cfg, rng: rand_chacha::ChaCha20Rng, r: &mut Reporter
             break;
         }
         let t_step = std::time::Instant::now();
-        let choice = wd.rng.gen_range(0..100);
+        let mut choice = wd.rng.gen_range(0..100);
+        if wd.mine_pending_soon && choice > 66 {
+            // a freshly stored shielding transaction gets mined while the shielded coins are still shallow
+            wd.mine_pending_soon = false;
+            choice = 90;
+        }
         match choice {
             0..=54 => proposal_op(&mut wd, r, d),
             55..=66 => lock_op(&mut wd, r, d),
@@ -509,7 +528,13 @@ fn run_history(i: u64, cfg: Cfg, rng: rand_chacha::ChaCha20Rng, r: &mut Reporter
                 let n = wd.rng.gen_range(1..4);
                 wd.mine(n);
                 match wd.rng.gen_range(0..10) {
-                    0..=6 => wd.sync(),
+                    0..=6 => {
+                        wd.sync();
+                        if wd.rng.gen_bool(0.35) {
+                            // fresh coins keep arriving
+                            wd.put_coin();
+                        }
+                    }
                     7 => {
                         let t = wd.sim.tip_height();
                         wd.tip(t);
@@ -567,7 +592,7 @@ fn run_history(i: u64, cfg: Cfg, rng: rand_chacha::ChaCha20Rng, r: &mut Reporter
             }
             88..=92 => {
                 if wd.mine_pending() > 0 {
-                    if wd.rng.gen_bool(0.85) {
+                    if wd.rng.gen_bool(0.9) {
                         wd.sync();
                     }
                 }
